@@ -338,6 +338,10 @@ func (s *FragRead) Run(env *core.Env, st *core.Stats) (vs []core.Violation) {
 	n := len(data)
 	if s.Enumerate {
 		for k := 1; k < n; k++ {
+			if k%64 == 63 && core.CapReached() {
+				st.Probe("enumeration-cut-short-by-the-wall-clock-cap")
+				return vs
+			}
 			if st != nil && k < len(sf.regions) {
 				st.Region(sf.regions[k])
 				st.Distinct(core.NewHash().Bytes(data).Int(k))
